@@ -200,6 +200,13 @@ def afterUpgrade (c : Ctx) (post : State) : SM Ctx := do
 def fieldWriteB (cfg : Config) (N old new : Nat) : Bool :=
   decide (new = old) || (decide (old = FAR_FUTURE_EPOCH) && decide (compute_activation_exit_epoch cfg N ≤ new))
 
+/-- two mix vectors of equal length that agree everywhere except possibly at the positions `a` and `b`
+(one linear pass; `j` is the position of the heads) -/
+def mixesOkFrom (a b : Nat) : Nat → List Bytes → List Bytes → Bool
+  | _, [], [] => true
+  | j, x :: xs, y :: ys => (decide (j = a) || decide (j = b) || decide (y = x)) && mixesOkFrom a b (j + 1) xs ys
+  | _, _, _ => false
+
 /-- Decides the write relation `Zrnt.Proofs.Ctx.EpochWrites cfg N st st'` the C08 theorems assume of blocks and of the
 epoch transition of epoch `N` (soundness: `Zrnt.Proofs.C08.epochWritesB_sound`). -/
 def epochWritesB (cfg : Config) (N : Nat) (st st' : State) : Bool :=
@@ -213,10 +220,7 @@ def epochWritesB (cfg : Config) (N : Nat) (st st' : State) : Bool :=
     match st'.validators[i]? with
     | some v' => decide (v'.activation_epoch = FAR_FUTURE_EPOCH)
     | none => false) &&
-  decide (st'.randao_mixes.length = st.randao_mixes.length) &&
-  (List.range st.randao_mixes.length).all (fun j =>
-    decide (j = N % cfg.EPOCHS_PER_HISTORICAL_VECTOR) || decide (j = (N + 1) % cfg.EPOCHS_PER_HISTORICAL_VECTOR) ||
-    decide (st'.randao_mixes[j]? = st.randao_mixes[j]?))
+  mixesOkFrom (N % cfg.EPOCHS_PER_HISTORICAL_VECTOR) ((N + 1) % cfg.EPOCHS_PER_HISTORICAL_VECTOR) 0 st.randao_mixes st'.randao_mixes
 
 /-- the remaining hypotheses of the in-epoch step theorem (`block_eq_ctxOf`): existing validators keep pubkey and
 effective balance, the state's sync committees are untouched -/
